@@ -293,12 +293,16 @@ int main(int argc, char **argv) {
             _exit(0);
         }
         close(pfd[1]);
-        char buf[4096]; ssize_t r; size_t got = 0;
-        while ((r = read(pfd[0], buf, sizeof buf)) > 0) { fwrite(buf, 1, (size_t)r, stdout); got += (size_t)r; }
+        char buf[4096]; ssize_t r; size_t got = 0; char tail[3] = { 0, 0, 0 };
+        while ((r = read(pfd[0], buf, sizeof buf)) > 0) {
+            fwrite(buf, 1, (size_t)r, stdout); got += (size_t)r;
+            for (ssize_t i = 0; i < r; i++) { tail[0] = tail[1]; tail[1] = tail[2]; tail[2] = buf[i]; }
+        }
         close(pfd[0]);
         int st = 0; waitpid(pid, &st, 0);
         if (!(WIFEXITED(st) && WEXITSTATUS(st) == 0)) {
-            if (got) fputs(" | ", stdout);
+            /* the child writes the separator before it starts a segment */
+            if (got && !(tail[0] == ' ' && tail[1] == '|' && tail[2] == ' ')) fputs(" | ", stdout);
             if (WIFSIGNALED(st) && WTERMSIG(st) == SIGALRM) fputs("<timeout>", stdout);
             else if (WIFSIGNALED(st)) fputs("<crash>", stdout);
             else printf("<exit %d>", WEXITSTATUS(st));
